@@ -17,7 +17,7 @@ CONSTANTS
   Alpha <- AlphaOk
   RefreshAlpha <- ROk
   MaxRecs = 2
-  MaxClock = 2
+  MaxClock = 1
   MaxMeta = 2
   MaxCalls = 1
   MaxOpens = 1
